@@ -1436,6 +1436,7 @@ class Repository:
                     flocks_refcounts[restore_to] += 1
 
             with flock:
+                _verif.sync('write.begin', path=file_path, offset=stream_start)
                 self._write_file_part(
                     restore_to, contents[start : start + chunk_size], stream_start
                 )
